@@ -670,6 +670,19 @@ impl<Config: endpoint::Config> ApplicationSpace<Config> {
     }
 
     fn key_limits() -> limited::Limits {
+        // verification hook: lets a test harness make real connections update their 1-RTT keys after a
+        // handful of packets instead of ~2^23 (never compiled without `--cfg aws_s2n_quic_verif`)
+        #[cfg(aws_s2n_quic_verif)]
+        if let Some(packets) = std::env::var("S2N_QUIC_VERIF_KEY_UPDATE_AFTER")
+            .ok()
+            .and_then(|v| v.parse::<u64>().ok())
+        {
+            let mut limits = limited::Limits::default();
+            // `needs_update` fires once `confidentiality_limit - key_update_window` packets were protected
+            limits.key_update_window = (1u64 << 23).saturating_sub(packets);
+            return limits;
+        }
+
         limited::Limits::default()
     }
 }
